@@ -7,6 +7,8 @@ from sim.gen_worker import gen_worker_script
 from ._wcommon import (ASSUMPTIONS, COMPONENTS_REAL, COMPONENTS_STUB, Hist, Violation, default_nontrivial,  # noqa: F401
                        simplifications, simulate)
 
+from ._wcommon import abstract_states  # noqa: F401,E402
+
 ID = "C02"
 RUNS = {"quick": 8000, "thorough": 250000}
 BUDGET_S = {"quick": 60, "thorough": 900}
